@@ -32,6 +32,14 @@ def outStr : Out → String
   | .throws e => s!"throw {e.str} {handlerOf e}"
   | o => o.str
 
+/-- outcome class of a call that is expected to be reported (C16/C17 child-process probes) -/
+def badClass : Out → String
+  | .handler "invalid_pointer" => "reported"
+  | .handler "hang" => "hang"
+  | .handler _ => "stopped"
+  | .crash => "crash"
+  | _ => "missed"
+
 def mkLine (op env res up st : String) : String := s!"{op} | {env} | {res} | {up} | {st}"
 
 end MemVerif.Drv
